@@ -463,3 +463,43 @@ Example C20_session_example :
   = [(b "HEAD", b "https://localhost:5000/v2/a/b/manifests/v1");
      (b "GET", b "https://localhost:5000/v2/a/b/tags/list?last=v+1")].
 Proof. vm_compute. reflexivity. Qed.
+
+(* ---------- every Repository / Registry value the library constructs ---------- *)
+
+(* remote.NewRepository(s) succeeds exactly like ParseReference(s) (same model function) and the
+   base of the value it returns satisfies the hypotheses of all Repository theorems above: the
+   "valid base" of C20_repo_*, C20_op_*, C20_desc_op_requests_exact and C20_session_in_base is
+   what the constructors guarantee, not an assumption about callers *)
+Theorem C20_new_repository_base_ok :
+  forall (avail vr : str -> bool) s base,
+    new_repository avail vr s = Some base ->
+    vr (r_registry base) = true /\ valid_repository (r_repository base) = true.
+Proof. exact new_repository_base_ok. Qed.
+Print Assumptions C20_new_repository_base_ok.
+
+Theorem C20_registry_repository_base_ok :
+  forall (vr : str -> bool) name sub reg base,
+    new_registry vr name = Some reg -> registry_repository reg sub = Some base ->
+    base = mkRef name sub [] /\ vr name = true /\ valid_repository sub = true.
+Proof. exact registry_repository_base_ok. Qed.
+Print Assumptions C20_registry_repository_base_ok.
+
+(* Registry.Ping / Registry.Repositories: one GET to exactly /v2/ resp. /v2/_catalog *)
+Theorem C20_reg_op_requests_exact :
+  forall (vr : str -> bool) op plain reg a1 num,
+    (forall r, vr r = true -> reg_clean r = true) -> vr reg = true -> bytes a1 -> bytes num ->
+    exists u q,
+      reg_op_requests op plain reg a1 num = [(m_get, u)] /\
+      url_split u = Some (mkParts (scheme plain) (host_of reg) (reg_op_path op) q None) /\
+      contains c_at (host_of reg) = false /\
+      match reg_op_params op a1 num with
+      | [] => q = None
+      | ps => exists qs, q = Some qs /\ parse_query qs = Some ps
+      end.
+Proof. exact reg_op_requests_exact. Qed.
+Print Assumptions C20_reg_op_requests_exact.
+
+(* the hand model of Digest.Validate is of exactly this source: go.sum pins go-digest's content *)
+Example C20_go_digest_pinned :
+  go_digest_pin = (b "v1.0.0", b "h1:apOUWs51W5PlhuyGyz9FCeeBIOUDA/6nW8Oi/yOhh5U=").
+Proof. vm_compute. reflexivity. Qed.
